@@ -54,9 +54,9 @@ def run(ctx):
            set(wr) <= {'options::Options::write_metadata_with_version', 'options::Options::write_metadata_file'}, str(wr))
     top = sorted(F.direct_callers_of('options::Options::write_metadata', 'options::Options::write_metadata_with_version') - {'options::Options::write_metadata'})
     allowed = {'options::Options::load_and_validate_metadata', 'db::Db::add_column', 'db::Db::drop_last_column', 'db::Db::reset_column', 'migration::migrate'}
-    ctx.ob('2b metadata-write-entry-points', 'K4-confinement', ','.join(top), 'metadata is (re)written only by create-open, the three column administration calls and migration', set(top) <= allowed and 'options::Options::load_and_validate_metadata' in top, str(top))
+    ctx.ob('2b metadata-write-entry-points', 'K4-confinement', ','.join(top), 'metadata is (re)written only by create-open, the three column administration calls and migration', all(lib.confined_through(F, x, allowed) or x in allowed for x in top) and 'options::Options::load_and_validate_metadata' in top, str(top))
     cd = sorted(F.direct_callers_of('std::fs::create_dir_all', 'std::fs::create_dir'))
-    ctx.ob('2c directory-creators', 'K4-confinement', ','.join(cd), 'directories are created only by DbInner::open (create mode) and migration', set(cd) <= {'db::DbInner::open', 'migration::migrate'}, str(cd))
+    ctx.ob('2c directory-creators', 'K4-confinement', ','.join(cd), 'directories are created only by DbInner::open (create mode) and migration', all(x in ('db::DbInner::open', 'migration::migrate') or lib.confined_through(F, x, {'db::DbInner::open', 'migration::migrate'}) for x in cd), str(cd))
     if o:
         for s in o.call_sites('std::fs::create_dir_all'):
             lib.eq_guarded(ctx, '2d create_dir-only-in-create-mode', o, s, 'the directory is created only when opening_mode == Create', params=[2])
